@@ -109,6 +109,12 @@ f := func(x, ...rest) { keep = append(keep, rest); if len(rest) > 0 { rest[0] = 
 lists := [[1, a, b], [2, b], [3], [4, 7, 8, 9]]
 r := SEQ(f, lists)
 return [r, keep, lists]`,
+	// 14: a Go function called by the callee panics; the callee's own try/catch/finally handles it (recovery is on)
+	`param (a, b)
+log := []
+fn := func(x) { try { if x == 1 { gopanic(x) }; return "quiet" } catch e { log = append(log, "recovered"); return "c" + string(x) } finally { log = append(log, x) } }
+wrap := func(x) { r := CALL(fn, x); return [r, len(log)] }
+return [CALL(fn, a & 1), CALL(fn, 1), CALL(wrap, b & 1), log]`,
 }
 
 func verifC14Modules() *ModuleMap {
@@ -214,8 +220,12 @@ func VerifC14Invoke() {
 		return r, nil
 	}}
 	run := func(fromGo bool) verifOutcome {
-		g := Map{"g": Int(100), "via": via, "seq": seq}
-		s := "global (via, seq); " + verifC14Rewrite(src, fromGo)
+		gopanic := &Function{Name: "gopanic", Value: func(args ...Object) (Object, error) {
+			var arr []int
+			return Int(arr[len(args)+2]), nil // index out of range: a Go panic
+		}}
+		g := Map{"g": Int(100), "via": via, "seq": seq, "gopanic": gopanic}
+		s := "global (via, seq, gopanic); " + verifC14Rewrite(src, fromGo)
 		bc, err := Compile([]byte(s), CompilerOptions{ModuleMap: verifC14Modules(), NoOptimize: verifrt.Param("opt") == 0})
 		if err != nil {
 			return verifOutcome{compErr: err}
